@@ -1,24 +1,33 @@
-/* C03 S3b: associativity and operand structure of binary operator chains - the real recursive ChaiScript_Parser::Operator(level), entered at
-   level L, with the token-level pieces as contract stubs: Operator_Helper(level) matches an operator of THIS level (oracle: up to two in a
+/* C03 S3b: associativity and operand structure of binary operator chains - ONE LEVEL of the real recursive ChaiScript_Parser::Operator(level),
+   entered at level L.  The recursive calls go through the translator's self-call hook: a call for level L+1 is the induction hypothesis ("parses
+   one operand made of tighter-binding operators and pushes its node", oracle), a call for level L again (the else branch of the conditional) runs
+   the real function again (nesting bounded by the two operators of the harness), a call for ANY OTHER level is a violation - so every level
+   parses its operands exactly one level tighter, which with the table of S3 is precedence climbing.  At the last level (Prefix) the operand is Value().
+   The token-level pieces are contract stubs: Operator_Helper(level) matches an operator of THIS level (oracle: up to two in a
    row, texts symbolic) and none at the tighter levels below it, Value() parses one operand (or fails, oracle) and pushes its node,
    build_match<Node>(prev_top, text) is a recorder that replaces the stack entries from prev_top on by one new node, ':' of the ternary is an oracle.
    Asserted: `a op1 b op2 c` is built as ((a op1 b) op2 c) - each operator node gets exactly [everything built so far at this level, the next
    operand] and the text of its own operator; levels 3..10 build Binary_Operator nodes, level 2 Logical_And, level 1 Logical_Or, level 0 the
-   ternary If with three children; an operator without right operand is an eval_error; nothing is built when no operator follows; the result
+   ternary If with three children, associating to the RIGHT as in C (a ? b : c ? d : e is a ? b : (c ? d : e)); an operator without right operand is an eval_error; nothing is built when no operator follows; the result
    is "parsed" iff the first operand parsed; parse depth is balanced. */
 #include "parser_model.h"
 #define NV 6
 static struct { char* vptr; char pad[SZ_Node]; } vnodes[NV], built[3];
 static char* slots[8]; static int n_slots;
 static void sync(char* self) { PM(self)->match_stack.b = (char*)&slots[0]; PM(self)->match_stack.e = (char*)&slots[n_slots]; PM(self)->match_stack.c = (char*)&slots[8]; }
-static int n_values, value_ok[NV], n_ops, op_present[3]; static char op_text[3];
+static int n_values, value_ok[NV], n_ops, op_present[3]; static char op_text[3]; static int rec_depth, q[4];
 static int depth; void DC_CTOR(char* self, char* parser) { *(char**)self = parser; depth++; } void DC_DTOR(char* self) { depth--; }
 uint8_t VALUE(char* self) { int i = n_values < NV ? n_values : NV - 1; n_values++; if (!value_ok[i]) return 0; if (n_slots < 8) slots[n_slots] = (char*)&vnodes[i]; n_slots++; sync(self); return 1; }
 /* Operator_Helper itself is inlined; its body is m_operator_matches.any_of(level, [&oper, this]{...}) - the stub stands for that call, the closure's first capture is &oper */
 uint8_t HELPER(char* matches, uint64_t level, char* closure) {
   char* oper = *(char**)closure;
   if (level != LEVEL) return 0;                                   /* no operator of a tighter level follows (bound of this harness: one level at a time) */
-  int i = n_ops < 3 ? n_ops : 2; n_ops++; if (i >= 2 || !op_present[i]) return 0;
+  int i = n_ops < 3 ? n_ops : 2; n_ops++;
+  /* q[frame] counts the queries of the current Operator(L) frame concretely (it cannot differ between merged paths), so the unrolling of the operator loop is
+     bounded syntactically; that the third query of a frame is never answered "yes" follows from the total of two operators and is asserted, not assumed */
+  int j = q[rec_depth] < 2 ? q[rec_depth] : 2; q[rec_depth] = j + 1;
+  if (j >= 2) { __CPROVER_assert(i >= 2, "MODEL: the per-frame bound on operator matches is implied by the total number of operators"); return 0; }
+  if (i >= 2 || !op_present[i]) return 0;
   struct sso_string* s = (struct sso_string*)oper; s->p = s->buf; s->n = 1; s->buf[0] = op_text[i]; s->buf[1] = 0; return 1; }
 uint8_t EOL(char* self) { return 0; }
 static int colon_ok; uint8_t SYMBOL(char* self, char* sym, uint8_t disallow) { return (uint8_t)colon_ok; }
@@ -31,6 +40,13 @@ static void record(char* self, int kind, uint64_t top, char* text) {
   if (top < 8) slots[top] = (char*)&built[j]; n_slots = (int)top + 1; sync(self); }
 #include STUBS_H
 uint8_t OPERATOR(char* self, uint64_t level);
+uint8_t operator_rec(char* self, uint64_t level) {
+  if (level == LEVEL + 1) return VALUE(self);                       /* induction hypothesis: one operand of the tighter levels */
+  __CPROVER_assert(level == LEVEL && LEVEL == 0, "C03: operands are parsed at the next tighter level (only the else branch of the conditional at its own level)");
+  if (level != LEVEL) { __CPROVER_assume(0); return 0; }
+  if (rec_depth >= 2) { __CPROVER_assert(0, "BOUND: more nested conditionals than the harness has operators"); __CPROVER_assume(0); return 0; }
+  rec_depth++; q[rec_depth] = 0; uint8_t r = OPERATOR(self, level); rec_depth--; return r;
+}
 char* __VERIF_exc_type(void);
 int main(void) {
   static struct parser_model PMODEL; char* parser = (char*)&PMODEL; static char buf[4]; parser_init(parser, buf, 4, 0, 1, 1, 1);
@@ -39,6 +55,11 @@ int main(void) {
   for (int i = 0; i < NV; i++) value_ok[i] = nondet_u8() & 1; for (int i = 0; i < 3; i++) { op_present[i] = nondet_u8() & 1; op_text[i] = (char)nondet_u8(); } colon_ok = nondet_u8() & 1;
   uint8_t r = OPERATOR(parser, LEVEL);
   __CPROVER_assert(depth == 0, "C01: the parse depth counter is balanced");
+#if LEVEL == 11
+  __CPROVER_assert(!__exc_pending && n_ops == 0 && n_built == 0 && n_values == 1 && (r & 1) == (value_ok[0] & 1) && n_slots == 1 + (value_ok[0] & 1), "C03: at the tightest level an expression is exactly one Value()");
+  if (r & 1) __CPROVER_assert(0, "witness: plain operand"); else __CPROVER_assert(0, "witness: no operand");
+  return 0;
+#endif
   /* reference: a (op b)* at this level, ternary: a ? b : c */
   int nops = 0; for (int i = 0; i < 2; i++) { if (op_present[i]) nops++; else break; }
   if (!value_ok[0]) { __CPROVER_assert(!__exc_pending && !(r & 1) && n_built == 0 && n_slots == 1, "C03: no operand, no expression; the match stack is untouched"); __CPROVER_assert(0, "witness: no operand"); return 0; }
@@ -46,7 +67,7 @@ int main(void) {
   for (int i = 0; i < nops && !err; i++) {
     if (!value_ok[vi]) { err = 1; break; } vi++;
 #if LEVEL == 0
-    if (!colon_ok) { err = 1; break; } if (!value_ok[vi]) { err = 1; break; } vi++;
+    if (!colon_ok) { err = 1; break; } if (!value_ok[vi]) { err = 1; break; } vi++;      /* the else branch starts with an operand */
 #endif
     built_expect++;
   }
@@ -54,10 +75,14 @@ int main(void) {
   __CPROVER_assert(!__exc_pending && (r & 1) && n_built == built_expect && n_slots == 2, "C03: a chain of operators of one level yields ONE expression node on the match stack");
   const int want_kind = LEVEL == 0 ? BK_IF : LEVEL == 1 ? BK_OR : LEVEL == 2 ? BK_AND : BK_BINARY;
   for (int j = 0; j < 2; j++) if (j < built_expect) {
-    __CPROVER_assert(b_kind[j] == want_kind && b_top[j] == 1, "C03: each operator of the level builds the node kind of that level over everything parsed at this level so far");
 #if LEVEL == 0
-    __CPROVER_assert(b_n[j] == 3 && b_child[j][0] == (j == 0 ? (char*)&vnodes[0] : (char*)&built[j - 1]) && b_child[j][1] == (char*)&vnodes[1 + 2 * j] && b_child[j][2] == (char*)&vnodes[2 + 2 * j], "C03: c ? a : b has exactly the children condition, then-value, else-value");
+    /* C: the conditional operator associates to the RIGHT - a ? b : c ? d : e is a ? b : (c ? d : e); the innermost conditional is built first */
+    int o = built_expect - 1 - j;
+    __CPROVER_assert(b_kind[j] == BK_IF && b_top[j] == (uint64_t)(1 + 2 * o), "C03: each conditional builds a ternary node over its own condition, then-value and else-value");
+    __CPROVER_assert(b_n[j] == 3 && b_child[j][0] == (char*)&vnodes[2 * o] && b_child[j][1] == (char*)&vnodes[2 * o + 1] && b_child[j][2] == (j == 0 ? (char*)&vnodes[2 * o + 2] : (char*)&built[j - 1]),
+                     "C03: c ? a : b has exactly the children condition, then-value, else-value, and a conditional in the else position belongs to the else branch (right associativity, as in C)");
 #else
+    __CPROVER_assert(b_kind[j] == want_kind && b_top[j] == 1, "C03: each operator of the level builds the node kind of that level over everything parsed at this level so far");
     __CPROVER_assert(b_n[j] == 2 && b_child[j][0] == (j == 0 ? (char*)&vnodes[0] : (char*)&built[j - 1]) && b_child[j][1] == (char*)&vnodes[1 + j], "C03: binary operators of one level associate to the left: (a op1 b) op2 c");
     __CPROVER_assert(b_text[j] == op_text[j], "C03: each operator node carries the spelling of its own operator");
 #endif
